@@ -62,20 +62,35 @@ def gen_calls(rng, spec):
             calls.append(["disable", rng.choice(["target", "vary"]), rng.randrange(max(spec["m"], spec["n"]))])
         elif x < 0.88:
             calls.append(["enable", rng.choice(["target", "vary"]), rng.randrange(max(spec["m"], spec["n"]))])
-        elif x < 0.92:
+        elif x < 0.90:
             calls.append(["clear_log"])
+        elif x < 0.96:
+            # the user moves a goal (new target value / tolerance) after earlier calls, e.g. after a successful solve
+            calls.append(["retarget", rng.randrange(spec["m"]), rng.choice([0.5, -1.0, 3.0, -4.0]), rng.choice([None, 1e-12])])
         else:
             calls.append(["step", rng.choice([2, 4]), True, False])
     return calls
 
 
 def check_problem(spec, calls, counters, violations):
+    import copy
+    spec = copy.deepcopy(spec)      # "retarget" edits the target values
     S = optmon.Setup(spec)
     opt = S.opt
     wit = {"spec": spec, "calls": calls}
     issues = []
     unit = all(w == 1.0 for w in spec["wv"])
+    row_tars = []       # target values in effect when each row was logged ("retarget" moves the goal later)
+
+    def note_rows():
+        n_rows = len(opt._log["penalty"])
+        if n_rows < len(row_tars):
+            del row_tars[:]          # clear_log
+        while len(row_tars) < n_rows:
+            row_tars.append(list(S.spec["tars"]))
+    note_rows()
     for call in calls:
+        note_rows()
         k = call[0]
         try:
             if k == "step":
@@ -109,10 +124,18 @@ def check_problem(spec, calls, counters, violations):
                 getattr(opt, k)(**{what: idx})
             elif k == "clear_log":
                 opt.clear_log()
+                del row_tars[:]
+            elif k == "retarget":
+                i = call[1] % spec["m"]
+                S.targets[i].value = S.targets[i].value + call[2]
+                S.spec["tars"][i] = S.targets[i].value
+                if call[3] is not None:
+                    S.targets[i].tol = call[3]
         except Exception as exc:
             counters.setdefault("calls_raised", {})
             kk = "%s:%s" % (k, type(exc).__name__)
             counters["calls_raised"][kk] = counters["calls_raised"].get(kk, 0) + 1
+        note_rows()
         if issues:
             break
     # ---- every row of the log --------------------------------------------------------------------
@@ -133,7 +156,7 @@ def check_problem(spec, calls, counters, violations):
         if not all(close(a, b, True) for a, b in zip(fx, T[i])):
             issues.append("row %d records target values %s, an independent evaluation at its knobs gives %s" % (i, list(T[i]), list(fx)))
             break
-        r = np.where(np.array(ta), (fx - np.array(spec["tars"])) * wt, 0.0)
+        r = np.where(np.array(ta), (fx - np.array(row_tars[i])) * wt, 0.0)
         pen = math.sqrt(float(np.dot(r, r)))
         if not math.isclose(pen, float(lg["penalty"][i]), rel_tol=1e-12, abs_tol=1e-300):
             issues.append("row %d records penalty %r, an independent evaluation gives %r" % (i, float(lg["penalty"][i]), pen))
@@ -167,9 +190,15 @@ def run_shard(spec_):
         check_problem(w["spec"], w["calls"], counters, violations)
         return {"evaluations": 1, "digests": [], "samples": [], "counters": counters, "violations": violations, "known": []}
     for p in range(spec_["problems"]):
-        spec = optmon.gen_problem(rng, families=("lin", "quad", "trig", "trig", "pole", "incons", "rankdef"))
+        spec = optmon.gen_problem(rng, families=("lin", "quad", "trig", "trig", "pole", "incons", "rankdef", "bowl", "bowl"))
         calls = gen_calls(rng, spec)
-        N, njac = check_problem(spec, calls, counters, violations)
+        try:
+            N, njac = check_problem(spec, calls, counters, violations)
+        except Exception as exc:
+            import traceback
+            violations.append({"what": "C15 a legal sequence of optimizer API calls raised %s: %s" % (type(exc).__name__, str(exc)[:200]),
+                               "spec": spec, "calls": calls, "traceback": traceback.format_exc()[-1500:]})
+            N, njac = 0, 0
         counters["problems"] = counters.get("problems", 0) + 1
         if N >= 4 and njac >= 2:
             digests.add(digest([spec, calls]))
